@@ -460,6 +460,47 @@ func c19Descent(c *Ctx, parseNode, parseRule, tryGroup *FuncInfo) {
 	check(childLoop, "parseNode:every child of other nodes is descended", parseNode.Obj, "children of document/alias nodes are skipped")
 	check(ruleLoop, "parseNode:every sequence element is offered to parseRule", parseRule.Obj, "some elements of a rule list are not parsed")
 	check(groupLoop, "parseNode:every groups element is offered to tryParseGroup", tryGroup.Obj, "some elements under `groups` are not examined")
+	// the anonymous group is created per rule list: the `group` parameter is
+	// (re)assigned only inside the sequence case, so sibling lists under one
+	// mapping never share (and re-emit) one group
+	{
+		var groupP types.Object
+		sig := parseNode.Obj.Type().(*types.Signature)
+		for i := 0; i < sig.Params().Len(); i++ {
+			if typeQName(sig.Params().At(i).Type()) == "internal/parser.Group" {
+				groupP = sig.Params().At(i)
+			}
+		}
+		bad := ""
+		nAssign := 0
+		ast.Inspect(parseNode.Decl.Body, func(n ast.Node) bool {
+			as, ok := n.(*ast.AssignStmt)
+			if !ok {
+				return true
+			}
+			for _, l := range as.Lhs {
+				if !isObj(info, l, groupP) {
+					continue
+				}
+				nAssign++
+				cc, _ := enclosingCase(pm, as)
+				inSeq := false
+				if cc != nil {
+					for _, e := range cc.List {
+						if k := constObj(info, e); k != nil && k.Name() == "SequenceNode" {
+							inSeq = true
+						}
+					}
+				}
+				if !inSeq {
+					bad = p19pos(c, as.Pos())
+				}
+			}
+			return true
+		})
+		c.Check(groupP != nil && bad == "" && nAssign >= 1, "C19-R3", "parseNode:anonymous group created per rule list", parseNode.Decl.Pos(), itoa(nAssign)+" assignment(s), all in the sequence case",
+			"the group handed down the descent is (re)assigned at "+bad+", outside the case that handles one rule list: two rule lists under the same wrapper mapping then share one group and the earlier list's rules are returned again with every later list")
+	}
 	// a recognised group's rules are descended, guarded only by tryParseGroup's own verdict
 	if groupLoop != nil {
 		var self *ast.CallExpr
@@ -717,3 +758,5 @@ func c19GroupKeys(c *Ctx, tryGroup, parseGroup *FuncInfo) {
 	}
 	c.Check(n >= 5, "C19-R5", "group keys compared", parseGroup.Decl.Pos(), itoa(n), "fewer than 5 group keys with a field found in the strict parser")
 }
+
+func p19pos(c *Ctx, pos token.Pos) string { return c.P.Pos(pos) }
